@@ -404,9 +404,11 @@ class Header(Field):
                 return 5
 
         else:
-            # old-format length
-            ##TODO: what if _llen needs to be (re)computed?
-            return self._llen
+            # old-format length: never narrower than the current length needs
+            if self._llen == 0:
+                return 0
+            needed = 1 if self.length < 0x100 else 2 if self.length < 0x10000 else 4
+            return max(self._llen, needed)
 
     @llen.register(int)
     def llen_int(self, val):
